@@ -2,9 +2,11 @@ package main
 
 import (
 	"fmt"
+	"sort"
 	"strings"
 
 	"github.com/open2b/scriggo"
+	"github.com/open2b/scriggo/native"
 )
 
 // construct is one source built by the "constructs" space: programs and
@@ -20,7 +22,21 @@ type construct struct {
 	entry   string // "" = program
 	goStmt  bool
 	comment string
+	globals native.Declarations
 }
+
+// recursive native types, declared as template globals
+type recTree map[string]recTree
+type recList []recList
+type recNode struct {
+	Next *recNode
+	Kids []recNode
+	M    map[string]*recNode
+}
+type recChan chan recChan
+type recFunc func() recFunc
+type recPtr *recPtr
+type recArr [2]*recArr
 
 func prog(name, body string) construct {
 	return construct{name: name, files: map[string]string{"main.go": "package main\n\n" + body}}
@@ -164,6 +180,29 @@ func constructs(tier string) []construct {
 	for n := 1; n <= 12; n++ {
 		for _, ch := range []string{"à", "€", "😀", "a"} {
 			cs = append(cs, tmpl("multibyte-text", strings.Repeat(ch, n)+"{{ 1 }}"+strings.Repeat(ch, n)+"b"))
+		}
+	}
+	// 8. globals of recursive native types shown in every context
+	recs := native.Declarations{"v1": (*recTree)(nil), "v2": (*recList)(nil), "v3": (*recNode)(nil), "v4": (**recNode)(nil),
+		"v5": (*recChan)(nil), "v6": (*recFunc)(nil), "v7": (*recPtr)(nil), "v8": (*recArr)(nil), "v9": (*map[string]interface{})(nil), "v10": (*[]recTree)(nil), "v11": (*map[string][]recNode)(nil)}
+	shows := []struct{ entry, pre, post string }{
+		{"index.html", "", ""}, {"index.html", "<script>var a = ", ";</script>"}, {"index.html", `<script type="application/ld+json">`, "</script>"},
+		{"index.html", "<style>a{b:", "}</style>"}, {"index.html", `<a title="`, `">`}, {"index.html", `<a href="`, `">`}, {"index.html", `<a onclick="`, `">`},
+		{"index.js", "var a = ", ";"}, {"index.json", `{"a": `, "}"}, {"index.css", "a{b:", "}"}, {"index.md", "# ", "\n"}, {"index.txt", "", ""},
+	}
+	var recNames []string
+	for name := range recs {
+		recNames = append(recNames, name)
+	}
+	sort.Strings(recNames)
+	for _, name := range recNames {
+		for _, sh := range shows {
+			for _, expr := range []string{name, "&" + name, "[]interface{}{" + name + "}", "len(" + name + ")"} {
+				if strings.HasPrefix(expr, "len(") && !(name == "v1" || name == "v2" || name == "v9" || name == "v10" || name == "v11") {
+					continue
+				}
+				cs = append(cs, construct{name: "recursive-global-type", entry: sh.entry, globals: recs, files: map[string]string{sh.entry: sh.pre + "{{ " + expr + " }}" + sh.post}})
+			}
 		}
 	}
 	return cs
